@@ -90,6 +90,38 @@ def cases(ctx):
             keys.append([])
         if nl.fits(q):
             yield "namedict", [22, keys, q]
+    # NameDict built from an initial mapping / list of pairs / update(), then assignments and deletions
+    for _ in range(ctx.n(250, 4000)):
+        q = nl.gen_labels(rng, budget=rng.choice([20, 60]))
+        if not nl.fits(q) or not q:
+            continue
+        pool = []
+        for _k in range(rng.randint(1, 6)):
+            r = rng.random()
+            if r < 0.65:
+                k = q[rng.randrange(len(q)):]
+                k = nl.case_variant(rng, k) if rng.random() < 0.4 else k
+            elif r < 0.85:
+                k = nl.related(rng, q)
+            else:
+                k = nl.gen_labels(rng, budget=20)
+            if nl.fits(k):
+                pool.append(k)
+        if rng.random() < 0.6:
+            pool.append([])
+        rng.shuffle(pool)
+        cut = rng.randint(0, len(pool))
+        init, later = pool[:cut], pool[cut:]
+        ops = [[0, k] for k in later]
+        for _d in range(rng.choice([0, 0, 1, 2, 3])):
+            if pool:
+                ops.insert(rng.randint(0, len(ops)), [1, rng.choice(pool)])
+        if rng.random() < 0.2 and pool:
+            ops.append([0, nl.case_variant(rng, rng.choice(pool))])
+        queries = [q, [b"x"] + q, q[1:], nl.case_variant(rng, q)]
+        queries = [x for x in queries if nl.fits(x)]
+        ctx.count("namedict:init-mode")
+        yield "namedict_init", [23, init, rng.randrange(4), ops, queries]
     # successor / predecessor: last octet sweeps, boundary lengths
     for _ in range(ctx.n(200, 1500)):
         o = nl.gen_labels(rng, absolute=True, budget=rng.choice([5, 12, 60]))
@@ -247,7 +279,7 @@ def succ_cases(rng, o, shape, oct_):
 
 
 def in_model(kind, case):
-    return case[0] not in (20, 21, 22) and not kind.endswith("-o")
+    return case[0] not in (20, 21, 22, 23) and not kind.endswith("-o")
 
 
 def impl(case):
@@ -256,6 +288,44 @@ def impl(case):
         a, b, c = (nl.N(x) for x in case[1:4])
         return [a.fullcompare(b)[1], b.fullcompare(c)[1], a.fullcompare(c)[1], b.fullcompare(a)[1],
                 int(a == b), int(hash(a) == hash(b)), int(a < b), int(a <= b), int(a > b), int(a >= b), int(a != b)]
+    if op == 23:
+        import dns.namedict
+
+        try:
+            init, mode, ops, queries = case[1], case[2], case[3], case[4]
+            pairs = [(nl.N(k), i) for i, k in enumerate(init)]
+            if mode == 0:
+                d = dns.namedict.NameDict()
+                for k, v in pairs:
+                    d[k] = v
+            elif mode == 1:
+                d = dns.namedict.NameDict(dict(pairs))
+            elif mode == 2:
+                d = dns.namedict.NameDict(pairs)
+            else:
+                d = dns.namedict.NameDict()
+                d.update(dict(pairs))
+            for j, (kind_, k) in enumerate(ops):
+                if kind_ == 0:
+                    d[nl.N(k)] = 100 + j
+                else:
+                    try:
+                        del d[nl.N(k)]
+                    except KeyError:
+                        pass
+            res = []
+            for q in queries:
+                try:
+                    k, v = d.get_deepest_match(nl.N(q))
+                    res.append([nl.labels_of(k), v])
+                except KeyError:
+                    res.append([[b"KeyError"], -1])
+            keys = sorted(nl.lower_labels(nl.labels_of(k)) for k in d)
+            probes = [int(nl.N(k) in d) for k in init + [k for _, k in ops]]
+            has = [int(d.has_key(nl.N(k))) for k in init + [k for _, k in ops]]
+            return [res, d.max_depth, len(d), keys, probes, has]
+        except Exception as e:  # noqa
+            return nl.exc_code(e)
     if op == 22:
         import dns.namedict
 
@@ -381,6 +451,46 @@ def _oracle(ctx, kind, case, out):
             fail("equal names hash differently")
         if (bool(lt), bool(le), bool(gt), bool(ge), bool(ne)) != (ab < 0, ab <= 0, ab > 0, ab >= 0, ab != 0):
             fail("rich comparisons disagree with fullcompare")
+    elif op == 23:
+        init, mode, ops, queries = case[1], case[2], case[3], case[4]
+        res, max_depth, size, keys, probes, has = out
+        lk = lambda k: tuple(lower(x) for x in k)
+        # reference content, from the operations alone (ci keys, last value wins)
+        content = {}
+        reassigned = False
+        for i, k in enumerate(init):
+            if lk(k) in content:
+                reassigned = True
+            content[lk(k)] = i
+        for j, (kind_, k) in enumerate(ops):
+            if kind_ == 0:
+                if lk(k) in content:
+                    reassigned = True
+                content[lk(k)] = 100 + j
+            else:
+                content.pop(lk(k), None)
+        if size != len(content) or sorted(list(map(list, content))) != keys:
+            fail("NameDict content (len / iteration) differs from the operations applied")
+        allk = init + [k for _, k in ops]
+        if probes != [int(lk(k) in content) for k in allk] or has != probes:
+            fail("`in` / has_key disagree with the content")
+        deepest = max((len(k) for k in content), default=0)
+        if max_depth < deepest:
+            fail("max_depth is smaller than the deepest key held (construction path changes the result)")
+        elif not reassigned and max_depth != deepest:
+            fail("max_depth is not the depth of the deepest key held")
+        for q, (mk, mv) in zip(queries, res):
+            best = None
+            for i in range(len(q)):
+                suf = lk(q[i:])
+                if suf in content:
+                    best = (list(suf), content[suf])
+                    break
+            if best is None:
+                best = ([], content[()]) if () in content else ([b"KeyError"], -1)
+            if [lower(x) for x in mk] != [lower(x) for x in best[0]] or mv != best[1]:
+                fail("get_deepest_match is not the deepest superdomain key of the final content")
+                break
     elif op == 22:
         (mk, mv), probes, size = out
         keys, q = case[1], case[2]
